@@ -164,6 +164,11 @@ ProgResponseOK(p, i) ==
     /\ Len(Line.hdrs) = Len(p.hdrs)
     /\ (Line.cl >= 0 /\ ~nb) => Line.cl = Line.bodyLen                      \* Content-Length matches the bytes sent
     /\ nb => Line.bodyLen = 0
+    \* a 1xx or 204 response carries no Content-Length at all (RFC 7230 3.3.2); a bodiless answer whose program has
+    \* no body either declares nothing or zero (never the length of an earlier response)
+    /\ ((p.status >= 100 /\ p.status <= 199) \/ p.status = 204) => Line.ncl = 0
+    /\ Line.ncl <= 1
+    /\ (nb /\ len = 0 /\ ~(p.body.kind = "none" /\ p.body.declared > 0)) => Line.cl \in {-1, 0}
     /\ (p.body.kind = "none" /\ p.body.declared > 0) => Line.cl = p.body.declared     \* the declared length of a HEAD answer is kept
     /\ ((p.status >= 100 /\ p.status <= 199) \/ p.status = 204) => ~Line.chunked
 
